@@ -161,6 +161,7 @@ def sibling(ctx, fx, ps, vreach):
     common_fields = sets[a.name] & sets[b.name]
     for f in sorted(common_fields):
         ctx.ok("C10.F2", None, "both-write:%s" % f, "both parsers assign SDJWTCommon.%s" % f)
+    nullable_asymmetry(ctx, fx, ps, sorted(common_fields))
     for f in sorted(only):
         # one-sided field: may not be read by verifier-reachable code
         rd = [r for r in common.field_reads(fx, COMMON, f) if not r["fn"].is_macro_generated() and r["fn"].name not in (a.name, b.name) and not default_filler(r)]
@@ -248,6 +249,74 @@ def sibling(ctx, fx, ps, vreach):
                 ctx.ok("C10.F2", p, "json-order", "the JWT is rebuilt from protected, payload, signature in this order", line=uj[0]["line"])
             else:
                 ctx.finding("C10.F2", p, "json-order", "the JSON parser rebuilds the JWT from %s (expected protected, payload, signature)" % order, line=uj[0]["line"])
+
+
+def nullable_asymmetry(ctx, fx, ps, fields):
+    """An Option field that one parser always fills with Some(..) while the other may leave None is a state only one format can produce.
+    For such a field the verifier must not accept in the None state what it subjects to verification in the Some state: with the field
+    assumed None (A6 valuation over the field; it is immutable after parsing, C04.K3) and every optional check of the constructor requested
+    (all Option parameters Some), no Ok exit of SDJWTVerifier::new may be reachable."""
+    a, b = ps
+    new = fx.view(vmodel.NEW)
+    if new is None:
+        return
+    for fld in fields:
+        shapes = {}
+        for p in ps:
+            ws = [w for w in (common.struct_field_writes(fx, COMMON, fld, fns=[p]) or []) if w["how"] in ("assign", "calldest") and w["value"] is not None]
+            if not ws:
+                continue
+            kinds = set()
+            for w in ws:
+                v = peel(w["value"])
+                alts = v.kids if v.kind == "phi" else [v]
+                for alt in alts:
+                    alt = peel(alt)
+                    if alt.kind == "agg" and alt.d["agg"].get("adt") == common.OPTION:
+                        kinds.add(alt.d["agg"].get("variant"))
+                    else:
+                        kinds.add("?")
+            shapes[p.name] = kinds
+        if len(shapes) != 2:
+            continue
+        ka, kb = shapes[a.name], shapes[b.name]
+        asym = (ka == {"Some"}) != (kb == {"Some"})
+        if not asym:
+            continue
+        # valuation: field == None
+        rem = []
+        nsw = 0
+        for (sb, subj) in common.discr_switches(new):
+            sj = peel(subj)
+            if sj.kind == "field" and sj.d.get("name") == fld and sj.d.get("adt") == COMMON:
+                nsw += 1
+                t = new.term(sb)
+                listed = set(v for (v, _) in t["targets"])
+                for (v, tgt) in t["targets"]:
+                    if v != 0:
+                        rem.append((sb, tgt))
+                if 0 in listed:
+                    rem.append((sb, t["otherwise"]))
+        for (sb, tt, ft, c) in common.bool_switches(new):
+            if c.kind == "call" and c.kids and c.d["term"].get("name") in ("is_some", "is_none"):
+                sj = peel(c.kids[0])
+                if sj.kind == "field" and sj.d.get("name") == fld and sj.d.get("adt") == COMMON:
+                    nsw += 1
+                    rem.append((sb, tt if c.d["term"]["name"] == "is_some" else ft))
+        opts = {i: True for i in range(1, new.arg_count + 1) if (new.local_ty(i) or "").startswith("std::option::Option<")}
+        rem += common.option_valuation_edges(new, opts)
+        r = cfg.reachable(new, [0], removed_edges=rem)
+        oks = [e for e in cfg.exit_sites(new) if e["kind"] == "Ok" and e["bb"] in r]
+        what = "format-only-state:%s" % fld
+        which = a.name if ka != {"Some"} else b.name
+        if nsw == 0:
+            ctx.ok("C10.F2", new, what, "%s can leave SDJWTCommon.%s None while the other parser always stores Some(..); the constructor never branches on its presence" % (which.split("::")[-1], fld))
+        elif oks:
+            ctx.finding("C10.F2", new, what, "SDJWTCommon.%s is None only for input parsed by %s (the other parser always stores Some(..)); with it None and every optional check requested "
+                        "the constructor can still return Ok (line %s): what is verified for one serialization is skipped for the other" % (fld, which.split("::")[-1], oks[0]["line"]), line=oks[0]["line"])
+        else:
+            ctx.ok("C10.F2", new, what, "SDJWTCommon.%s is None only for input parsed by %s; with it None and every optional check requested no Ok exit is reachable (%d switch(es) on the field pruned)"
+                   % (fld, which.split("::")[-1], nsw))
 
 
 def default_filler(r):
